@@ -17,7 +17,7 @@ PY
 export GOFLAGS=-mod=mod GOPROXY=off GOSUMDB=off GOTOOLCHAIN=local
 (cd $S && go build ./... ) || { echo "MUTANT DOES NOT COMPILE"; rm -rf $S; exit 4; }
 set +e
-cmd=$1; shift; /verif/bin/wv $cmd --repo $S "$@" 2>&1 | sed "s#$S#/repo#g"
+cmd=$1; shift; if [ "$cmd" = ssa ]; then (cd $S && WV_REPO=$S /verif/bin/wv ssa "$@"); else /verif/bin/wv $cmd --repo $S "$@"; fi 2>&1 | sed "s#$S#/repo#g"
 rc=$?
 rm -rf $S
 exit $rc
